@@ -1831,9 +1831,11 @@ impl<K: AsRef<Key>> ServerError<K> {
         let mut builder = builder.additional();
         match self.0 {
             ServerErrorInner::Unsigned { error } => {
-                let tsig = {
-                    MessageTsig::from_message(msg)
-                        .expect("missing or malformed TSIG record")
+                // If the request was refused because its TSIG record is
+                // misplaced, duplicated or unparseable, there is no record
+                // to echo and the error goes out without one.
+                let Ok(tsig) = MessageTsig::from_message(msg) else {
+                    return Ok(builder);
                 };
                 builder.push((
                     tsig.record.owner(),
